@@ -166,51 +166,82 @@ def r2(ctx):
     tries = [t for t in walk_no_nested(f) if isinstance(t, ast.Try)]
     if len(tries) != 1:
         raise AnalysisError('HandleLimiter.write: expected exactly one try block around the open')
-    cfg = CFG(tries[0].body, exceptions=False)
+    # decision procedure: for every valuation of (path written before, forceAppend, gzip method) the non-raising way through the try
+    # statement (body, then its else clause) performs exactly one open of the path, truncating iff the path was not written before and
+    # append is not forced, remembers a truncated path afterwards, and uses gzip / binary mode iff the gzip method is selected
+    import itertools
+    force = f.args.args[4].arg if len(f.args.args) > 4 else 'forceAppend'
+    meth = f.args.args[3].arg if len(f.args.args) > 3 else 'method'
+    cfg = CFG([tries[0]], exceptions=False)
     n = 0
     bad = []
-    for p, _ in cfg.paths():
-        if cfg.nodes[p[-1][0]].info not in ('fall', 'break'):
-            continue
-        n += 1
-        seen_guard = None
-        opens = []
-        added_seen = False
-        order = []
-        for nid, label in p:
-            nn = cfg.nodes[nid]
-            if nn.kind == 'test':
-                t = src(nn.ast.test)
-                if f'{pathvar} in self.seen' in t:
-                    # `path in self.seen or forceAppend`
-                    seen_guard = (label == 'true')
-            for c in node_calls(nn):
+    for S, FA, M in itertools.product((True, False), repeat=3):
+        def atoms(e, S=S, FA=FA, M=M):
+            t = src(e)
+            if t == f'{pathvar} in self.seen':
+                return S
+            if t == f'{pathvar} not in self.seen':
+                return not S
+            if t == force:
+                return FA
+            if t == f'{meth} == 1':
+                return M
+            if t in (f'{meth} == 0', f'{meth} != 1'):
+                return not M
+            if isinstance(e, ast.Call) and isinstance(e.func, ast.Name) and e.func.id == 'bool' and len(e.args) == 1:
+                return eval3(e.args[0], {}, atoms)
+            return UNK
+
+        def step(state, node, label, atoms=atoms):
+            cenv, ev = state
+            if node.kind == 'test' and label in ('true', 'false') and isinstance(node.ast, (ast.If, ast.While)):
+                v = eval3(node.ast.test, cenv, atoms)
+                if v is not UNK and bool(v) != (label == 'true'):
+                    return None
+            for c in node_calls(node):
                 d = dotted(c.func) or ''
-                if d in ('open', 'gzip.open') and len(c.args) >= 2 and isinstance(c.args[1], ast.Constant):
-                    opens.append((d, c.args[1].value, src(c.args[0])))
-                    order.append('open')
+                if d in ('open', 'gzip.open') and len(c.args) >= 2:
+                    m_ = c.args[1]
+                    for _ in range(3):
+                        if isinstance(m_, ast.IfExp):
+                            v = eval3(m_.test, cenv, atoms)
+                            m_ = m_ if v is UNK else (m_.body if v else m_.orelse)
+                        elif isinstance(m_, ast.Name) and isinstance(cenv.get(m_.id), str):
+                            m_ = ast.Constant(value=cenv[m_.id])
+                    ev = ev + (('open', d, m_.value if isinstance(m_, ast.Constant) else None, src(c.args[0])),)
                 if src(c.func) == 'self.seen.add' and c.args and src(c.args[0]) == pathvar:
-                    added_seen = True
-                    order.append('seen.add')
-        if len(opens) != 1:
-            bad.append(f'{len(opens)} opens on a path')
-            continue
-        d, mode, target = opens[0]
-        if target != pathvar:
-            bad.append(f'opens {target} instead of {pathvar}')
-        if mode.startswith('w'):
-            if seen_guard is not False:
-                bad.append(f'truncating mode {mode!r} used although the path may have been written before')
-            if not added_seen or order.index('seen.add') < order.index('open'):
+                    ev = ev + (('seen.add',),)
+            if node.kind == 'stmt' and isinstance(node.ast, ast.Assign) and len(node.ast.targets) == 1 and isinstance(node.ast.targets[0], ast.Name):
+                cenv = dict(cenv)
+                val = node.ast.value
+                if isinstance(val, ast.IfExp):
+                    v = eval3(val.test, cenv, atoms)
+                    val = val if v is UNK else (val.body if v else val.orelse)
+                cenv[node.ast.targets[0].id] = val.value if isinstance(val, ast.Constant) else eval3(val, cenv, atoms)
+            return (cenv, ev)
+        for p, (cenv, ev) in cfg.paths(state0=({}, ()), step=step):
+            if cfg.nodes[p[-1][0]].info not in ('fall', 'break'):
+                continue
+            n += 1
+            case = f'(written before={S}, forceAppend={FA}, gzip={M})'
+            opens = [e for e in ev if e[0] == 'open']
+            if len(opens) != 1:
+                bad.append(f'{len(opens)} opens on a path {case}')
+                continue
+            _, d, mode, target = opens[0]
+            if target != pathvar:
+                bad.append(f'opens {target} instead of {pathvar}')
+            if mode is None:
+                bad.append(f'open mode not decided {case}')
+                continue
+            want_trunc = not (S or FA)
+            if mode.startswith('w') != want_trunc or mode[:1] not in ('w', 'a'):
+                bad.append(f'truncating mode {mode!r} used although the path may have been written before {case}' if mode.startswith('w') else f'append mode {mode!r} on the first-open branch {case}' if mode.startswith('a') else f'unexpected mode {mode!r}')
+            if mode.startswith('w') and ('seen.add',) not in ev[ev.index(opens[0]):]:
                 bad.append(f'truncating open {mode!r} is not followed by self.seen.add({pathvar})')
-        elif mode.startswith('a'):
-            if seen_guard is not True:
-                bad.append(f'append mode {mode!r} on the first-open branch')
-        else:
-            bad.append(f'unexpected mode {mode!r}')
-        if ('b' in mode) != (d == 'gzip.open'):
-            bad.append(f'{d} with mode {mode!r}')
-    ctx.emit('C19-R2', not bad and n >= 4, HANDLELIM, tries[0], f'{n} open paths: ' + ('truncate only on first open (then remembered), append otherwise' if not bad else '; '.join(sorted(set(bad)))),
+            if ('b' in mode) != (d == 'gzip.open') or (d == 'gzip.open') != M:
+                bad.append(f'{d} with mode {mode!r} {case}')
+    ctx.emit('C19-R2', not bad and n >= 8, HANDLELIM, tries[0], f'{n} open paths over 8 valuations: ' + ('truncate only on first open (then remembered), append otherwise' if not bad else '; '.join(sorted(set(bad)))),
              key='truncate-once')
     # method flag selects gzip consistently: method == 1 -> gzip.open
     # write-once: after the open section every path performs exactly one handle.write
@@ -400,6 +431,10 @@ def r4(ctx):
                         # dropping an entry that holds a handle without having closed on this path
                         if not closed:
                             bad = True
+                if nn.kind == 'stmt' and isinstance(nn.ast, ast.Delete) and any(isinstance(t_, ast.Subscript) and src(t_.value) == 'self.openHandles' for t_ in nn.ast.targets):
+                    n_drop += 1
+                    if not closed:
+                        bad = True
                 if nn.kind == 'stmt' and isinstance(nn.ast, ast.Assign) and src(nn.ast.targets[0]) == 'self.openHandles':
                     n_drop += 1
                     if not closed and any(isinstance(x, ast.For) for x in walk_no_nested(f)):
@@ -410,7 +445,16 @@ def r4(ctx):
                  key=f'{m}:close-before-pop')
     f = ctx.fn(HANDLELIM, f'{CLS}.prune')
     srt = [n for n in walk_no_nested(f) if isinstance(n, ast.Call) and dotted(n.func) == 'sorted']
-    ok = len(srt) == 1 and "['lastw']" in src(srt[0]) and not any(k.arg == 'reverse' for k in srt[0].keywords)
+    keyfn = next((k.value for k in srt[0].keywords if k.arg == 'key'), None) if len(srt) == 1 else None
+    if isinstance(keyfn, ast.Name):
+        # a nested function used as the sort key: its returned expression
+        defs = [d for d in ast.walk(f) if isinstance(d, ast.FunctionDef) and d is not f and d.name == keyfn.id]
+        rets = [r_ for d in defs for r_ in walk_no_nested(d) if isinstance(r_, ast.Return) and r_.value is not None]
+        keyfn = rets[0].value if len(defs) == 1 and len(rets) == 1 else None
+    elif isinstance(keyfn, ast.Lambda):
+        keyfn = keyfn.body
+    ok = len(srt) == 1 and keyfn is not None and src(keyfn).startswith('self.openHandles[') and src(keyfn).endswith("['lastw']") and not any(k.arg == 'reverse' for k in srt[0].keywords) \
+        and src(srt[0].args[0]) in ('self.openHandles', 'self.openHandles.keys()', 'list(self.openHandles.keys())', 'list(self.openHandles)')
     sl = [n for n in walk_no_nested(f) if isinstance(n, ast.Subscript) and isinstance(n.slice, ast.Slice) and n.value in srt]
     ok = ok and len(sl) == 1 and sl[0].slice.lower is None and sl[0].slice.upper is not None
     ctx.emit('C19-R4', ok, HANDLELIM, f, 'prune() drops the least recently written handles (ascending lastw, prefix of length #open - maxHandles)', key='prune-oldest')
